@@ -48,6 +48,10 @@ func (m *LuaManager) RunLuaScript(obj *unstructured.Unstructured, script string)
 			return nil, err
 		}
 	}
+	// the base library also registers dofile/loadfile, which read arbitrary files of the controller's
+	// file system; scripts must have no file access
+	l.SetGlobal("dofile", lua.LNil)
+	l.SetGlobal("loadfile", lua.LNil)
 	ctx, cancel := context.WithTimeout(context.Background(), 1*time.Second)
 	defer cancel()
 	l.SetContext(ctx)
